@@ -22,6 +22,8 @@ SAMEEV = z3.Function("SAME_EVENT_COND", Int, Int)  # the bound method <event>.is
 CLASSES["CondCallable"].from_bound_method = lambda path, bm: (
     O(SAMEEV(bm.recv.e), "CondCallable") if bm.name == "is_same_event" else (_ for _ in ()).throw(Unsupported("bound method as cond")))
 CLASSES["Event"].methods["is_same_event"] = C("statemachine.event:Event.is_same_event")
+from pyvc.core import REF_HOOKS  # noqa: E402
+REF_HOOKS.append(lambda v: SAMEEV(v.recv.e) if isinstance(v, BM) and v.name == "is_same_event" and isinstance(v.recv, O) else None)
 CLASSES["SpecListGrouper"].methods["add"] = C(CBQ + "SpecListGrouper.add")
 for _f, _t in (("cond", "Opt[CondCallable]"), ("priority", "int"), ("expected_value", "Val"), ("is_convention", "bool")):
     CLASSES["CallbackSpec"].fields.setdefault(_f, _t)
@@ -70,49 +72,26 @@ def has_equal_spec(s, specs, func, group, upto=None):
                                  s.sel("CallbackSpec.group", sp) == group))
 
 
-@register
 class GrouperAdd(Contract):
-    """SpecListGrouper.add(name, priority=..., is_convention=..., cond=..., expected_value=...) for ONE
-    name — ASSUMED here (body: CallbackSpecList.add/_add): appends a spec with exactly these fields to
-    the grouper's list unless a spec with the same func and group is already there."""
+    """SpecListGrouper.add(name, **kwargs) for ONE name (C02, C15): appends to the grouper's list a spec
+    of the grouper's group with exactly the given fields, unless an equal spec (same func and group)
+    is already there; returns the grouper."""
 
     qualnames = [CBQ + "SpecListGrouper.add"]
-    params = [("self", "SpecListGrouper"), ("callbacks", "str"), ("priority", "int"), ("is_convention", "bool"),
-              ("cond", "Opt[CondCallable]"), ("expected_value", "Val")]
-    defaults = {"cond": NoneV(), "expected_value": NoneV(), "is_convention": B(z3.BoolVal(False))}
+    params = [("self", "SpecListGrouper"), ("callbacks", "str"), ("**kwargs", "dict[str,Val]")]
     returns = "SpecListGrouper"
-    modifies = ["list.arr", "list.len", "CallbackSpec.func+", "CallbackSpec.group+", "CallbackSpec.cond+", "CallbackSpec.priority+",
-                "CallbackSpec.is_convention+", "CallbackSpec.expected_value+"]
-    trusted = True
+    modifies = None  # set below (ADD_MODIFIES)
+    properties = ["C02", "C15"]
+
+    def pre(self, s, a):
+        return {"list-wf": spec_list_wf(s, s.sel("SpecListGrouper.list", a.self.e))}
 
     def post(self, s0, s, a, r):
         me = a.self.e
-        specs = s0.sel("SpecListGrouper.list", me)
-        grp = s0.sel("SpecListGrouper.group", me)
-        lst = s0.sel("CallbackSpecList.items", specs)
-        arr0, n0 = spec_items(s0, specs)
-        arr, n = spec_items(s, specs)
-        func = STR_REF(a.callbacks.e)
-        dup = has_equal_spec(s0, specs, func, grp)
-        new = z3.Select(arr, n0)
-        o, k = z3.Const("o!ga", Int), z3.Const("k!ga", Int)
-        return {
-            "returns-self": r.e == me,
-            "other-lists-untouched": z3.ForAll([o], z3.Implies(o != lst, z3.And(
-                z3.Select(s["list.arr"], o) == z3.Select(s0["list.arr"], o), z3.Select(s["list.len"], o) == z3.Select(s0["list.len"], o)))),
-            "nothing-added-or-one-appended-with-these-fields": z3.Or(
-                z3.And(n == n0, arr == arr0),
-                z3.And(n == n0 + 1, z3.ForAll([k], z3.Implies(z3.And(k >= 0, k < n0), z3.Select(arr, k) == z3.Select(arr0, k)),
-                                              patterns=[z3.Select(arr, k)]),
-                       new >= s0["ghost.alloc"], new < s["ghost.alloc"], s.sel("CallbackSpec.func", new) == func,
-                       s.sel("CallbackSpec.group", new) == grp, s.sel("CallbackSpec.cond", new) == ref_of(a.cond),
-                       s.sel("CallbackSpec.priority", new) == a.priority.e, s.sel("CallbackSpec.is_convention", new) == a.is_convention.e,
-                       s.sel("CallbackSpec.expected_value", new) == ref_of(a.expected_value))),
-            "appended-iff-no-equal-spec-was-there": (n == n0) == dup,
-        }
-
-    def assumptions(self):
-        return ["SpecListGrouper.add / CallbackSpecList.add / _add: assumed contract (append unless an equal spec exists)"]
+        f = add_post(s0, s, s0.sel("SpecListGrouper.list", me), s0.sel("SpecListGrouper.group", me), STR_REF(a.callbacks.e),
+                     SpecListAddOne._fields(None, s0, a))
+        f["returns-self"] = r.e == me
+        return f
 
 
 def fmt1(shape):
@@ -143,6 +122,7 @@ class TransitionSetup(Contract):
         k = z3.Const("k!tsp", Int)
         gs = {"before": "BEFORE", "on": "ON", "after": "AFTER"}
         f = {"events-valid": z3.And(en >= 0, z3.ForAll([k], z3.Implies(z3.And(k >= 0, k < en), valid_obj(s, z3.Select(ea, k))))),
+             "spec-list-wf": spec_list_wf(s, specs),
              "spec-list-valid": z3.And(valid_obj(s, specs), valid_obj(s, s.sel("CallbackSpecList.items", specs)), spec_items(s, specs)[1] >= 0,
                                        s.sel("CallbackSpecList.items", specs) != s.sel("Events._items", s.sel("Transition._events", t)),
                                        valid_obj(s, s.sel("Events._items", s.sel("Transition._events", t))))}
@@ -201,8 +181,533 @@ class TransitionSetup(Contract):
             "C02|added-so-far-are-generic-or-scoped": self._added_are_scoped(s0, s, a),
             "existing-specs-kept": self._old_kept(s0, s, a),
             "other-lists-untouched": self._other_lists(s0, s, a),
+            "spec-list-wf": spec_list_wf(s, s0.sel("Transition._specs", a.self.e)),
         }
 
     @property
     def loops(self):
         return {0: LoopSpec(self._inv)}
+
+
+# =========================================================================== CallbackSpecList.add / _add
+from pyvc.execu import builtin  # noqa: E402
+
+
+@builtin("ensure_iterable")
+def b_ensure_iterable(ex, path, ca, node):
+    """utils.ensure_iterable: a str (or any non-iterable) becomes a one-element list; None is handled
+    by the callers; other iterables are iterated as they are."""
+    v = ca.pos[0]
+    if isinstance(v, S) or (isinstance(v, O) and v.cls in ("Val", "Transition", "CallbackSpec")):
+        return [(path, T((v,)))]
+    return [(path, v)]
+
+
+def spec_ctor(ex, path, ca, node):
+    """CallbackSpec(func, group, is_convention=False, is_event=False, cond=None, priority=NAMING,
+    expected_value=None) — ASSUMED constructor contract: the fields the engine reads are stored as
+    given (reference kind / attr_name bookkeeping is not modelled)."""
+    names = ["func", "group", "is_convention", "is_event", "cond", "priority", "expected_value"]
+    dflt = {"is_convention": B(z3.BoolVal(False)), "is_event": B(z3.BoolVal(False)), "cond": NoneV(),
+            "priority": I(z3.IntVal(PRIO["NAMING"])), "expected_value": NoneV()}
+    params = [(n, {"is_convention": "bool", "is_event": "bool", "priority": "int"}.get(n, "any")) for n in names]
+    vals = ex.bind_params(path, params, None, ca, dflt, node)
+    sp = path.alloc("CallbackSpec", "spec")
+    path.store("CallbackSpec.func", sp.e, ref_of(vals["func"]))
+    path.store("CallbackSpec.group", sp.e, ref_of(vals["group"]))
+    path.store("CallbackSpec.is_convention", sp.e, vals["is_convention"].e)
+    path.store("CallbackSpec.cond", sp.e, ref_of(vals["cond"]))
+    path.store("CallbackSpec.priority", sp.e, vals["priority"].e)
+    path.store("CallbackSpec.expected_value", sp.e, ref_of(vals["expected_value"]))
+    return [(path, sp)]
+
+
+CLASSES["CallbackSpec"].ctor = spec_ctor
+CLASSES["CallbackSpec"].isinstance_of = lambda other: other == "CallbackSpec"
+GLOBAL_NAMES["CallbackSpec"] = Py(("class", "CallbackSpec"))
+CLASSES["CallbackSpecList"].py_fields["factory"] = Py(("class", "CallbackSpec"))
+CLASSES["CallbackSpecList"].fields["conventional_specs"] = "set[Val]"
+HEAP_SORTS.setdefault("CallbackSpecList.conventional_specs", A_II)
+CLASSES["CallbackSpecList"].methods.update({"add": C(CBQ + "CallbackSpecList.add"), "_add": C(CBQ + "CallbackSpecList._add")})
+
+
+@register
+class SpecEq(Contract):
+    """CallbackSpec.__eq__: same func and same group (this is what de-duplicates specs, so a callback
+    name used in two groups of one list stays two specs)."""
+
+    qualnames = [CBQ + "CallbackSpec.__eq__"]
+    params = [("self", "CallbackSpec"), ("other", "CallbackSpec")]
+    returns = "bool"
+    modifies = []
+    properties = ["C02", "C15"]
+
+    def post(self, s0, s, a, r):
+        return {"C02|equal-iff-same-func-and-same-group": r.e == z3.And(
+            s0.sel("CallbackSpec.func", a.self.e) == s0.sel("CallbackSpec.func", a.other.e),
+            s0.sel("CallbackSpec.group", a.self.e) == s0.sel("CallbackSpec.group", a.other.e))}
+
+
+def _spec_eq_formula(ex, path, a, b):
+    if not (isinstance(b, O) and b.cls == "CallbackSpec"):
+        raise Unsupported("CallbackSpec == non-spec")
+    return z3.And(path.sel("CallbackSpec.func", a.e) == path.sel("CallbackSpec.func", b.e),
+                  path.sel("CallbackSpec.group", a.e) == path.sel("CallbackSpec.group", b.e))
+
+
+CLASSES["CallbackSpec"].eq_fn = _spec_eq_formula  # call sites use SpecEq's post; the body is checked against it above
+
+ADD_MODIFIES = ["list.arr", "list.len", "set.has", "CallbackSpec.func+", "CallbackSpec.group+", "CallbackSpec.cond+", "CallbackSpec.priority+",
+                "CallbackSpec.is_convention+", "CallbackSpec.expected_value+", "dict.has+", "dict.val+"]
+
+
+def add_post(s0, s, specs, grp, func, fields, result_is=None):
+    lst = s0.sel("CallbackSpecList.items", specs)
+    arr0, n0 = spec_items(s0, specs)
+    arr, n = spec_items(s, specs)
+    dup = has_equal_spec(s0, specs, func, grp)
+    new = z3.Select(arr, n0)
+    o, k = z3.Const("o!ap", Int), z3.Const("k!ap", Int)
+    f = {
+        "other-lists-untouched": z3.ForAll([o], z3.Implies(o != lst, z3.And(
+            z3.Select(s["list.arr"], o) == z3.Select(s0["list.arr"], o), z3.Select(s["list.len"], o) == z3.Select(s0["list.len"], o))),
+            patterns=[z3.Select(s["list.arr"], o), z3.Select(s["list.len"], o)]),
+        "C15|nothing-added-or-one-appended-with-these-fields": z3.Or(
+            z3.And(n == n0, arr == arr0),
+            z3.And(n == n0 + 1, z3.ForAll([k], z3.Implies(z3.And(k >= 0, k < n0), z3.Select(arr, k) == z3.Select(arr0, k)),
+                                          patterns=[z3.Select(arr, k)]),
+                   new >= s0["ghost.alloc"], new < s["ghost.alloc"], s.sel("CallbackSpec.func", new) == func,
+                   s.sel("CallbackSpec.group", new) == grp, *[s.sel("CallbackSpec." + fn, new) == fv for fn, fv in fields.items()])),
+        "C02,C15|appended-iff-no-equal-spec-was-there": (n == n0) == dup,
+    }
+    return f
+
+
+def spec_list_wf(s, specs):
+    lst = s.sel("CallbackSpecList.items", specs)
+    arr, n = spec_items(s, specs)
+    k = z3.Const("k!slw", Int)
+    return z3.And(valid_obj(s, specs), valid_obj(s, lst), n >= 0, valid_obj(s, s.sel("CallbackSpecList.conventional_specs", specs)),
+                  z3.ForAll([k], z3.Implies(z3.And(k >= 0, k < n), valid_obj(s, z3.Select(arr, k)))))
+
+
+@register
+class SpecListAddOne(Contract):
+    """CallbackSpecList._add(name, group, **kwargs) (C02, C15): builds the spec with exactly these fields
+    and appends it unless a spec with the same func and group is already in the list."""
+
+    qualnames = [CBQ + "CallbackSpecList._add"]
+    params = [("self", "CallbackSpecList"), ("func", "Val"), ("group", "CallbackGroup"), ("**kwargs", "dict[str,Val]")]
+    returns = "Val"
+    modifies = ADD_MODIFIES
+    properties = ["C02", "C15"]
+
+    def pre(self, s, a):
+        return {"list-wf": spec_list_wf(s, a.self.e), "a-name-not-a-spec": NOT_A_SPEC(a.func.e)}
+
+    def _fields(self, s0, a):
+        has, val = s0.sel("dict.has", a.kwargs.e), s0.sel("dict.val", a.kwargs.e)
+        g = lambda n: (z3.Select(has, z3.StringVal(n)), z3.Select(val, z3.StringVal(n)))  # noqa: E731
+        return {
+            "cond": z3.If(g("cond")[0], g("cond")[1], NONE),
+            "priority": z3.If(g("priority")[0], g("priority")[1], z3.IntVal(PRIO["NAMING"])),
+            "is_convention": z3.If(g("is_convention")[0], truthy(g("is_convention")[1]), False),
+            "expected_value": z3.If(g("expected_value")[0], g("expected_value")[1], NONE),
+        }
+
+    def post(self, s0, s, a, r):
+        return add_post(s0, s, a.self.e, a.group.e, a.func.e, self._fields(s0, a))
+
+
+NOT_A_SPEC = z3.Function("NOT_A_CALLBACKSPEC", Int, Bool)
+from pyvc.core import GLOBAL_AXIOMS  # noqa: E402
+_x = z3.Const("x!nas", Str)
+GLOBAL_AXIOMS.append(z3.ForAll([_x], NOT_A_SPEC(STR_REF(_x)), patterns=[STR_REF(_x)]))  # a str is not a CallbackSpec
+CLASSES["Val"].isinstance_fn = (lambda prev: (lambda path, v, clsname: (
+    z3.Not(NOT_A_SPEC(v.e)) if clsname == "CallbackSpec" else prev(path, v, clsname))))(CLASSES["Val"].isinstance_fn)
+
+
+GrouperAdd.modifies = ADD_MODIFIES
+register(GrouperAdd)
+TransitionSetup.modifies = ADD_MODIFIES
+
+
+@register
+class SpecListAdd(Contract):
+    """CallbackSpecList.add(name, group, **kwargs) for ONE name: what _add does; returns the list."""
+
+    qualnames = [CBQ + "CallbackSpecList.add"]
+    params = [("self", "CallbackSpecList"), ("callbacks", "str"), ("group", "CallbackGroup"), ("**kwargs", "dict[str,Val]")]
+    returns = "CallbackSpecList"
+    modifies = ADD_MODIFIES
+    properties = ["C02", "C15"]
+
+    def pre(self, s, a):
+        return {"list-wf": spec_list_wf(s, a.self.e), "a-name-not-a-spec": NOT_A_SPEC(STR_REF(a.callbacks.e))}
+
+    def post(self, s0, s, a, r):
+        f = add_post(s0, s, a.self.e, a.group.e, STR_REF(a.callbacks.e), SpecListAddOne._fields(None, s0, a))
+        f["returns-self"] = r.e == a.self.e
+        return f
+
+
+@register
+class StateSetup(Contract):
+    """State._setup (C02): registers on_enter_state / on_enter_<id> in the enter group and
+    on_exit_state / on_exit_<id> in the exit group, unconditioned convention callbacks."""
+
+    qualnames = [STQ + "State._setup"]
+    params = [("self", "State")]
+    returns = "None"
+    modifies = ADD_MODIFIES
+    properties = ["C02"]
+
+    def pre(self, s, a):
+        st = a.self.e
+        specs = s.sel("State._specs", st)
+        f = {"spec-list-wf": spec_list_wf(s, specs)}
+        for attr, gname in (("enter", "ENTER"), ("exit", "EXIT")):
+            g = s.sel("State." + attr, st)
+            f[f"{attr}-grouper"] = z3.And(valid_obj(s, g), s.sel("SpecListGrouper.list", g) == specs, s.sel("SpecListGrouper.group", g) == G(gname))
+        return f
+
+    def post(self, s0, s, a, r):
+        st = a.self.e
+        specs = s0.sel("State._specs", st)
+        arr, n = spec_items(s, specs)
+        n0 = spec_items(s0, specs)[1]
+        k = z3.Const("k!ss", Int)
+        sp = z3.Select(arr, k)
+        func, grp = s.sel("CallbackSpec.func", sp), s.sel("CallbackSpec.group", sp)
+        sid = s0.sel("State._id", st)
+        ok = z3.Or(
+            z3.And(func == STR_REF(z3.StringVal("on_enter_state")), grp == G("ENTER")),
+            z3.And(func == STR_REF(fmt1("on_enter_|{}")(sid)), grp == G("ENTER")),
+            z3.And(func == STR_REF(z3.StringVal("on_exit_state")), grp == G("EXIT")),
+            z3.And(func == STR_REF(fmt1("on_exit_|{}")(sid)), grp == G("EXIT")))
+        return {"C02|only-this-states-enter-and-exit-conventions-are-added": z3.ForAll([k], z3.Implies(
+            z3.And(k >= n0, k < n), z3.And(ok, s.sel("CallbackSpec.is_convention", sp), s.sel("CallbackSpec.cond", sp) == NONE)),
+            patterns=[z3.Select(arr, k)])}
+
+
+# =========================================================================== TransitionList.add_transitions
+TLQ = "statemachine.transition_list:TransitionList."
+CLASSES["Transition"].isinstance_of = lambda other: other == "Transition"
+CLASSES["TransitionList"].isinstance_of = lambda other: other == "TransitionList"
+GLOBAL_NAMES["Transition"] = Py(("class", "Transition"))
+GLOBAL_NAMES["TransitionList"] = Py(("class", "TransitionList"))
+CLASSES["TransitionList"].methods["add_transitions"] = C(TLQ + "add_transitions#one")
+
+
+def tlist(s, tl):
+    lst = s.sel("TransitionList.transitions", tl)
+    return s.sel("list.arr", lst), s.sel("list.len", lst), lst
+
+
+def tl_valid(s, tl):
+    arr, n, lst = tlist(s, tl)
+    return z3.And(valid_obj(s, tl), valid_obj(s, lst), n >= 0)
+
+
+def appended(s0, s, tl, items):
+    """tl.transitions' = tl.transitions ++ items (a python list of refs); every other list untouched."""
+    arr0, n0, lst = tlist(s0, tl)
+    arr, n, _ = tlist(s, tl)
+    k, o = z3.Const("k!apd", Int), z3.Const("o!apd", Int)
+    return z3.And(
+        n == n0 + len(items),
+        z3.ForAll([k], z3.Implies(z3.And(k >= 0, k < n0), z3.Select(arr, k) == z3.Select(arr0, k)), patterns=[z3.Select(arr, k)]),
+        *[z3.Select(arr, n0 + i) == it for i, it in enumerate(items)],
+        z3.ForAll([o], z3.Implies(o != lst, z3.And(z3.Select(s["list.arr"], o) == z3.Select(s0["list.arr"], o),
+                                                   z3.Select(s["list.len"], o) == z3.Select(s0["list.len"], o))),
+                  patterns=[z3.Select(s["list.arr"], o), z3.Select(s["list.len"], o)]))
+
+
+@register
+class AddTransitionsOne(Contract):
+    """TransitionList.add_transitions(<one Transition>) (C15): appended at the end, order kept."""
+
+    qualnames = [TLQ + "add_transitions#one"]
+    params = [("self", "TransitionList"), ("transition", "Transition")]
+    returns = "TransitionList"
+    raises = False
+    modifies = ["list.arr", "list.len"]
+    properties = ["C15"]
+
+    def pre(self, s, a):
+        return {"list-valid": tl_valid(s, a.self.e)}
+
+    def post(self, s0, s, a, r):
+        return {"C15|appended-in-order": appended(s0, s, a.self.e, [a.transition.e]), "returns-self": r.e == a.self.e}
+
+
+@register
+class AddTransitionsList(Contract):
+    """TransitionList.add_transitions(<TransitionList>) (C15): the operand's transitions are appended in
+    order; the operand itself is untouched."""
+
+    qualnames = [TLQ + "add_transitions#list"]
+    params = [("self", "TransitionList"), ("transition", "TransitionList")]
+    returns = "TransitionList"
+    raises = False
+    modifies = ["list.arr", "list.len"]
+    properties = ["C15"]
+
+    def pre(self, s, a):
+        return {"lists-valid": z3.And(tl_valid(s, a.self.e), tl_valid(s, a.transition.e),
+                                      s.sel("TransitionList.transitions", a.self.e) != s.sel("TransitionList.transitions", a.transition.e))}
+
+    def _facts(self, s0, s, a, upto):
+        arr0, n0, lst = tlist(s0, a.self.e)
+        arr, n, _ = tlist(s, a.self.e)
+        oa, on, olst = tlist(s0, a.transition.e)
+        k, o = z3.Const("k!atl", Int), z3.Const("o!atl", Int)
+        return z3.And(
+            n == n0 + upto,
+            z3.ForAll([k], z3.Implies(z3.And(k >= 0, k < n0), z3.Select(arr, k) == z3.Select(arr0, k)), patterns=[z3.Select(arr, k)]),
+            z3.ForAll([k], z3.Implies(z3.And(k >= n0, k < n0 + upto), z3.Select(arr, k) == z3.Select(oa, k - n0)), patterns=[z3.Select(arr, k)]),
+            z3.ForAll([o], z3.Implies(o != lst, z3.And(z3.Select(s["list.arr"], o) == z3.Select(s0["list.arr"], o),
+                                                       z3.Select(s["list.len"], o) == z3.Select(s0["list.len"], o))),
+                      patterns=[z3.Select(s["list.arr"], o), z3.Select(s["list.len"], o)]))
+
+    def post(self, s0, s, a, r):
+        return {"C15|operand-appended-in-order-operand-untouched": self._facts(s0, s, a, tlist(s0, a.transition.e)[1]),
+                "returns-self": r.e == a.self.e}
+
+    def _inv(self, s0, s, a, l):
+        return {"C15|appended-so-far": self._facts(s0, s, a, l.i)}
+
+    @property
+    def loops(self):
+        return {0: LoopSpec(self._inv)}
+
+
+# =========================================================================== AnyState._on_event_defined
+CLASSES["Transition"].methods["_copy_with_args"] = C(TRQ + "_copy_with_args")
+CLASSES["State"].props["final"] = INL(STQ + "State.final")
+
+
+@register
+class CopyWithArgs(Contract):
+    """Transition._copy_with_args(source=..., event=...) — ASSUMED here: a fresh transition from the given
+    source to the same target, same `internal`, with copies of the specs (own contract: TODO)."""
+
+    qualnames = [TRQ + "_copy_with_args"]
+    params = [("self", "Transition"), ("source", "State"), ("event", "Val")]
+    returns = "Transition"
+    modifies = ["Transition.source+", "Transition.target+", "Transition.internal+", "Transition._events+", "Transition._specs+",
+                "Transition.validators+", "Transition.before+", "Transition.on+", "Transition.after+", "Transition.cond+"]
+    trusted = True
+
+    def post(self, s0, s, a, r):
+        return {"fresh-copy-from-the-given-source": z3.And(
+            r.e >= s0["ghost.alloc"], r.e < s["ghost.alloc"], s.sel("Transition.source", r) == a.source.e,
+            s.sel("Transition.target", r) == s0.sel("Transition.target", a.self.e),
+            s.sel("Transition.internal", r) == s0.sel("Transition.internal", a.self.e))}
+
+    def assumptions(self):
+        return ["Transition._copy_with_args: assumed contract (fresh copy with the given source, same target)"]
+
+
+@register
+class AnyOnEventDefined(Contract):
+    """AnyState._on_event_defined(event, transition, states) (C09, C15): `from_.any()` means one copy
+    of the transition from EVERY non-final state of the list, and none from a final state."""
+
+    qualnames = [STQ + "AnyState._on_event_defined"]
+    params = [("self", "State"), ("event", "Val"), ("transition", "Transition"), ("states", "list[State]")]
+    returns = "None"
+    modifies = CopyWithArgs.modifies + ["list.arr", "list.len"]
+    properties = ["C09", "C15"]
+
+    def pre(self, s, a):
+        arr, n = s.sel("list.arr", a.states.e), s.sel("list.len", a.states.e)
+        k, k2 = z3.Const("k!aop", Int), z3.Const("k2!aop", Int)
+        st = z3.Select(arr, k)
+        tl = s.sel("State.transitions", st)
+        tl2 = s.sel("State.transitions", z3.Select(arr, k2))
+        return {"states-valid-with-their-own-transition-lists": z3.And(
+            n >= 0, valid_obj(s, a.states.e),
+            z3.ForAll([k], z3.Implies(z3.And(k >= 0, k < n), z3.And(valid_obj(s, st), tl_valid(s, tl),
+                                                                    s.sel("TransitionList.transitions", tl) != a.states.e))),
+            z3.ForAll([k, k2], z3.Implies(z3.And(0 <= k, k < k2, k2 < n), z3.And(
+                z3.Select(arr, k) != z3.Select(arr, k2),
+                s.sel("TransitionList.transitions", tl) != s.sel("TransitionList.transitions", tl2)))))}
+
+    def _done(self, s0, s, a, upto):
+        arr, n = s0.sel("list.arr", a.states.e), s0.sel("list.len", a.states.e)
+        k, j = z3.Const("k!aod", Int), z3.Const("j!aod", Int)
+        st = z3.Select(arr, k)
+        ta0, tn0, lst = tlist(s0, s0.sel("State.transitions", st))
+        ta = z3.Select(s["list.arr"], lst)
+        tn = z3.Select(s["list.len"], lst)
+        new = z3.Select(ta, tn0)
+        final = s0.sel("State._final", st)
+        inr = z3.And(k >= 0, k < n)
+        return {
+            "existing-transitions-kept": z3.ForAll([k, j], z3.Implies(z3.And(inr, j >= 0, j < tn0), z3.Select(ta, j) == z3.Select(ta0, j))),
+            "C09,C15|final-states-and-states-not-reached-yet-get-nothing": z3.ForAll([k], z3.Implies(
+                z3.And(inr, z3.Or(final, k >= upto)), tn == tn0), patterns=[z3.Select(arr, k)]),
+            "C09,C15|every-non-final-state-gets-exactly-one-copy-from-itself": z3.ForAll([k], z3.Implies(
+                z3.And(inr, z3.Not(final), k < upto), z3.And(
+                    tn == tn0 + 1, new >= s0["ghost.alloc"], new < s["ghost.alloc"], s.sel("Transition.source", new) == st,
+                    s.sel("Transition.target", new) == s0.sel("Transition.target", a.transition.e))), patterns=[z3.Select(arr, k)]),
+            "states-list-untouched": z3.And(s.sel("list.len", a.states.e) == n, s.sel("list.arr", a.states.e) == arr),
+        }
+
+    def post(self, s0, s, a, r):
+        return self._done(s0, s, a, s0.sel("list.len", a.states.e))
+
+    def _inv(self, s0, s, a, l):
+        return self._done(s0, s, a, l.i)
+
+    @property
+    def loops(self):
+        return {0: LoopSpec(self._inv)}
+
+
+# =========================================================================== Transition.__init__ / _copy_with_args
+@register
+class GrouperAddAny(Contract):
+    """SpecListGrouper.add(callbacks, **kwargs) for an arbitrary `callbacks` value (None, a name, a
+    callable or a list of those): None adds nothing; otherwise only specs of THIS group, carrying the
+    given expected_value, are appended (ASSUMED for non-None values other than one name)."""
+
+    qualnames = [CBQ + "SpecListGrouper.add#any"]
+    params = [("self", "SpecListGrouper"), ("callbacks", "Val"), ("**kwargs", "dict[str,Val]")]
+    returns = "SpecListGrouper"
+    modifies = ADD_MODIFIES
+    trusted = True
+
+    def post(self, s0, s, a, r):
+        me = a.self.e
+        specs = s0.sel("SpecListGrouper.list", me)
+        grp = s0.sel("SpecListGrouper.group", me)
+        lst = s0.sel("CallbackSpecList.items", specs)
+        arr0, n0 = spec_items(s0, specs)
+        arr, n = spec_items(s, specs)
+        k, o = z3.Const("k!gaa", Int), z3.Const("o!gaa", Int)
+        sp = z3.Select(arr, k)
+        ev = z3.Select(s0.sel("dict.val", a.kwargs.e), z3.StringVal("expected_value"))
+        has_ev = z3.Select(s0.sel("dict.has", a.kwargs.e), z3.StringVal("expected_value"))
+        return {
+            "returns-self": r.e == me,
+            "none-adds-nothing": z3.Implies(a.callbacks.e == NONE, z3.And(n == n0, arr == arr0)),
+            "prefix-kept": z3.And(n >= n0, z3.ForAll([k], z3.Implies(z3.And(k >= 0, k < n0), z3.Select(arr, k) == z3.Select(arr0, k)),
+                                                     patterns=[z3.Select(arr, k)])),
+            "added-specs-are-of-this-group-with-the-given-expected-value": z3.ForAll([k], z3.Implies(z3.And(k >= n0, k < n), z3.And(
+                sp >= s0["ghost.alloc"], sp < s["ghost.alloc"], s.sel("CallbackSpec.group", sp) == grp,
+                s.sel("CallbackSpec.expected_value", sp) == z3.If(has_ev, ev, NONE))), patterns=[z3.Select(arr, k)]),
+            "other-lists-untouched": z3.ForAll([o], z3.Implies(o != lst, z3.And(
+                z3.Select(s["list.arr"], o) == z3.Select(s0["list.arr"], o), z3.Select(s["list.len"], o) == z3.Select(s0["list.len"], o))),
+                patterns=[z3.Select(s["list.arr"], o), z3.Select(s["list.len"], o)]),
+        }
+
+    def assumptions(self):
+        return ["SpecListGrouper.add with a non-name argument (callable / list): assumed to append only specs of its own group"]
+
+
+@model
+def grouper_add_dispatch(ex, path, recv, ca, node):
+    """One real method, two contracts: a single name uses the proved GrouperAdd, anything else GrouperAddAny."""
+    q = CBQ + ("SpecListGrouper.add" if (ca.pos and isinstance(ca.pos[0], S)) else "SpecListGrouper.add#any")
+    return ex.apply_contract(path, CONTRACTS[q], recv, ca, "SpecListGrouper.add", node)
+
+
+CLASSES["SpecListGrouper"].methods["add"] = grouper_add_dispatch
+
+
+@model
+def speclist_grouper(ex, path, recv, ca, node):
+    """CallbackSpecList.grouper(group) — ASSUMED: the (cached) grouper of this list for that group."""
+    g = path.alloc("SpecListGrouper", "grouper")
+    path.store("SpecListGrouper.list", g.e, recv.e)
+    path.store("SpecListGrouper.group", g.e, ref_of(ca.pos[0]))
+    return [(path, g)]
+
+
+CLASSES["CallbackSpecList"].methods["grouper"] = speclist_grouper
+
+
+def speclist_ctor(ex, path, ca, node):
+    """CallbackSpecList() — ASSUMED constructor: an empty list of specs."""
+    sl = path.alloc("CallbackSpecList", "speclist")
+    items = ex.new_list(path, [])
+    path.store("CallbackSpecList.items", sl.e, items.e)
+    cs = path.alloc("set[Val]", "convspecs")
+    path.store("set.has", cs.e, z3.K(Int, False))
+    path.store("CallbackSpecList.conventional_specs", sl.e, cs.e)
+    return [(path, sl)]
+
+
+CLASSES["CallbackSpecList"].ctor = speclist_ctor
+GLOBAL_NAMES["CallbackSpecList"] = Py(("class", "CallbackSpecList"))
+
+
+def events_ctor(ex, path, ca, node):
+    ev = path.alloc("Events", "events")
+    path.store("Events._items", ev.e, ex.new_list(path, []).e)
+    return [(path, ev)]
+
+
+@model
+def events_add_any(ex, path, recv, ca, node):
+    """Events.add(events) — ASSUMED here (C15 builders): the ids of the given events, in order, without
+    duplicates; None adds nothing."""
+    v = ca.pos[0]
+    if not isinstance(v, NoneV):
+        lst = path.sel("Events._items", recv.e)
+        path.store("list.arr", lst, fresh("ev_items", z3.ArraySort(Int, Int)))
+        n = fresh("ev_n", Int)
+        path.assume(n >= 0)
+        path.store("list.len", lst, n)
+    return [(path, recv)]
+
+
+CLASSES["Events"].ctor = events_ctor
+CLASSES["Events"].methods["add"] = events_add_any
+GLOBAL_NAMES["Events"] = Py(("class", "Events"))
+
+
+@register
+class TransitionInit(Contract):
+    """Transition.__init__ (C09, C15): an internal transition must be a self-transition, otherwise
+    InvalidDefinition; source/target/internal stored as given; the five groupers are groupers of the
+    transition's own spec list for the right groups; cond entries expect True, unless entries False."""
+
+    qualnames = [TRQ + "__init__"]
+    params = [("self", "Transition"), ("source", "Opt[State]"), ("target", "State"), ("event", "Val"), ("internal", "bool"),
+              ("validators", "Val"), ("cond", "Val"), ("unless", "Val"), ("on", "Val"), ("before", "Val"), ("after", "Val")]
+    returns = "None"
+    raises = True
+    exc_classes = ["InvalidDefinition"]
+    modifies = ADD_MODIFIES + ["Transition.source", "Transition.target", "Transition.internal", "Transition._events", "Transition._specs",
+                               "Transition.validators", "Transition.before", "Transition.on", "Transition.after", "Transition.cond",
+                               "SpecListGrouper.list+", "SpecListGrouper.group+", "SpecListGrouper.key+", "CallbackSpecList.items+",
+                               "CallbackSpecList.conventional_specs+", "Events._items+"]
+    properties = ["C09", "C15"]
+
+    def post(self, s0, s, a, r):
+        from pyvc.core import TRUE_OBJ, FALSE_OBJ
+        t = a.self.e
+        specs = s.sel("Transition._specs", t)
+        arr, n = spec_items(s, specs)
+        k = z3.Const("k!ti", Int)
+        sp = z3.Select(arr, k)
+        gs = {"validators": "VALIDATOR", "before": "BEFORE", "on": "ON", "after": "AFTER", "cond": "COND"}
+        f = {
+            "C09|accepted-only-if-internal-implies-self-transition": z3.Implies(a.internal.e, a.source.e == a.target.e),
+            "C15|source-target-internal-stored": z3.And(s.sel("Transition.source", t) == a.source.e,
+                                                        s.sel("Transition.target", t) == a.target.e, s.sel("Transition.internal", t) == a.internal.e),
+            "C08,C15|guards-expect-True-for-cond-and-False-for-unless": z3.ForAll([k], z3.Implies(
+                z3.And(k >= 0, k < n, s.sel("CallbackSpec.group", sp) == G("COND")),
+                z3.Or(s.sel("CallbackSpec.expected_value", sp) == TRUE_OBJ, s.sel("CallbackSpec.expected_value", sp) == FALSE_OBJ))),
+        }
+        for attr, gname in gs.items():
+            g = s.sel("Transition." + attr, t)
+            f[f"C15|{attr}-is-the-{gname}-grouper-of-the-own-spec-list"] = z3.And(
+                s.sel("SpecListGrouper.list", g) == specs, s.sel("SpecListGrouper.group", g) == G(gname), g >= s0["ghost.alloc"])
+        return f
+
+    def exc_post(self, s0, s, a, x):
+        return {"C09|rejected-only-if-internal-and-not-a-self-transition": z3.And(a.internal.e, a.source.e != a.target.e)}
